@@ -32,21 +32,17 @@ Qed.
 Definition LSR_MAX : Z := 10 * P18.
 Definition SECS_MAX : Z := 100 * SECONDS_PER_YEAR.
 
-Lemma to64_int k : 0 <= k -> k <= 1000 -> to64 (k * P18f) = k * F_ONE.
-Proof.
-  intros H0 H1. assert (E : forallb (fun k => to64 (k * P18f) =? k * F_ONE) (map Z.of_nat (seq 0 1001)) = true) by (vm_compute; reflexivity).
-  rewrite forallb_forall in E. specialize (E k). apply Z.eqb_eq. apply E.
-  apply in_map_iff. exists (Z.to_nat k). split; [lia|]. apply in_seq. lia.
-Qed.
+Lemma to64_11 : to64 (11 * P18f) = 11 * F_ONE. Proof. vm_compute. reflexivity. Qed.
+Lemma to64_100 : to64 (100 * P18f) = 100 * F_ONE. Proof. vm_compute. reflexivity. Qed.
 
 Lemma cmp_x_le lsr : lsr <= LSR_MAX -> cmp_x lsr <= POW_XMAX.
 Proof.
-  intros H. unfold cmp_x, POW_XMAX. rewrite <- (to64_int 11) by lia. apply to64_mono.
+  intros H. unfold cmp_x, POW_XMAX. rewrite <- to64_11. apply to64_mono.
   unfold LSR_MAX in H. change P18f with P18. lia.
 Qed.
 Lemma cmp_y_le secs : 0 <= secs -> secs <= SECS_MAX -> cmp_y secs <= POW_YMAX.
 Proof.
-  intros H0 H. unfold cmp_y, POW_YMAX. rewrite <- (to64_int 100) by lia. apply to64_mono.
+  intros H0 H. unfold cmp_y, POW_YMAX. rewrite <- to64_100. apply to64_mono.
   change P18f with P18. rewrite years_div by lia. unfold SECS_MAX in H. pose proof SPY_pos. dec_consts.
   apply Z.div_le_upper_bound; [lia|]. nia.
 Qed.
